@@ -69,8 +69,8 @@ theorem rel_leaf {wd : Nat → Nat} {ρ : Env} {m : Mods} {p : Pending} (h : Rel
   | slice a lo hi =>
     cases a with
     | sig i w s =>
-      simp only [leafOk, Bool.and_eq_true, decide_eq_true_eq, Bool.not_eq_true', Bool.and_eq_false_imp] at hl
-      obtain ⟨⟨⟨hlo, hhi⟩, hw0⟩, hone⟩ := hl
+      simp only [leafOk, Bool.and_eq_true, decide_eq_true_eq] at hl
+      obtain ⟨⟨hlo, hhi⟩, hw0⟩ := hl
       simp only [wfLeaf] at hw
       simp only [bitsSign] at hxy
       have hev : evalF (readPost ρ m) (.sig i w s) = readPost ρ m i := rfl
@@ -88,7 +88,11 @@ theorem rel_leaf {wd : Nat → Nat} {ρ : Env} {m : Mods} {p : Pending} (h : Rel
         subst this
         have : hi = 1 := by omega
         subst this
-        simp only [nbaLeaf, applyPending]
+        -- `x` or, for a signed signal, `{x}`: the same scheduled update
+        have hnl : nbaLeaf (if s = true then VExpr.concat [VExpr.id i 1 s] else VExpr.id i 1 s, false).1 y p
+            = ⟨i, 0, 1, tn 1 y⟩ :: p := by cases s <;> simp [nbaLeaf]
+        rw [hnl]
+        simp only [applyPending]
         by_cases hij : i = j
         · subst hij
           simp only [if_true]
@@ -144,7 +148,7 @@ theorem selfWidth_print_leaf (e : Expr) (hl : leafOk e = true) : selfWidth (prin
       rw [printE_slice_sig]
       simp only [bitsSign]
       by_cases hw1 : w = 1
-      · rw [if_pos hw1]; simp only [selfWidth]; omega
+      · rw [if_pos hw1]; cases s <;> simp [selfWidth, concatWidth] <;> omega
       · rw [if_neg hw1]
         by_cases hgt : hi - lo > 1
         · rw [if_pos hgt]; simp only [selfWidth]; omega
